@@ -74,14 +74,24 @@ func (f *Mapcar) Call(s *slip.Scope, args slip.List, depth int) (result slip.Obj
 				l2 := args[i].(slip.List)
 				ca[i-1] = l2[n]
 			}
-			rlist[n] = caller.Call(s, ca, d2)
+			rlist[n] = primaryValue(caller.Call(s, ca, d2))
 		}
 	} else {
 		// The most common case.
 		rlist = make(slip.List, len(list))
 		for i, v := range list {
-			rlist[i] = caller.Call(s, slip.List{v}, d2)
+			rlist[i] = primaryValue(caller.Call(s, slip.List{v}, d2))
 		}
 	}
 	return rlist
+}
+
+// primaryValue returns the first of multiple values and any other object as
+// it is. A function called by a mapping function contributes its primary
+// value.
+func primaryValue(v slip.Object) slip.Object {
+	if vs, ok := v.(slip.Values); ok {
+		return vs.First()
+	}
+	return v
 }
